@@ -374,3 +374,4 @@ def run(ctx):
                "length", "random", "bigline", "nocolon", "barelf", "nul"):
         ctx.floor("op:" + op, total // 60)
         ctx.floor("cop:" + op, total // 80)
+    ctx.floor("cop:jsonbody", total // 40)
